@@ -9,6 +9,7 @@ CONSTANTS
   MaxObjs = 3
   Parents = {"none"}
   Fmts = {"F1", "F2"}
+  BadOverrides = FALSE
   SecondReport = FALSE
   Variant = "impl"
 INVARIANT ExactlyOnce
